@@ -4,7 +4,7 @@
    tmapz Quarter = quarter_map, tmapz Beat / tmapz Musical = beat_map in notated / musical mode,
    tinv = the inverse maps, on the timeline [p_first, p_last] of a part with >= 2 points.
    The same definitions are evaluated on every generated part by the correspondence check. *)
-From PV Require Import Lib.Base Model.C02 Model.C02_Hist Model.C02_Api Gen.C02_Tab Proofs.C02_lib Proofs.C02 Proofs.C02_hist Proofs.C02_api.
+From PV Require Import Lib.Base Model.C02 Model.C02_Hist Model.C02_Api Gen.C02_Tab Proofs.C02_lib Proofs.C02 Proofs.C02_hist Proofs.C02_api Model.C02_Req Proofs.C02_req.
 From Coq Require Import QArith.
 #[local] Open Scope Z_scope.
 
@@ -382,3 +382,50 @@ Print Assumptions qd_map_impl_spec.
 Theorem qd_map_single : forall k v t lo hi, qd_map_impl [(k, v)] t = v /\ wrap_previous [(k, v)] lo hi t = v.
 Proof. exact Proofs.C02_api.qd_map_single. Qed.
 Print Assumptions qd_map_single.
+
+(* --- state carried between calls (Model/C02_Req.v): histories of EDITS (public API of Model/C02_Api.v, in-place writes of
+   TimeSignature.beats / beat_type / musical_beats, removal of notes and measures), REQUESTS of a map object through the
+   property, CALLS through the property and through map objects kept from earlier.  Every observation of every history
+   is a function of the state of the part at the moment of the request: a call through the property = ask w (the state
+   the edits so far leave), a call through a kept object = ask w (the state when it was requested); earlier requests,
+   calls and kept objects never matter *)
+Theorem req_current_state : forall q0 ops, robs false (rinit q0) ops = rspec (ainit q0) [] ops.
+Proof. exact Proofs.C02_req.req_current_state. Qed.
+Print Assumptions req_current_state.
+
+(* forall history, observation = f (current state): whatever was edited, requested, called and kept before, a call
+   through the property returns the map of the part the edits so far leave (rcur skips everything but the edits) *)
+Theorem req_ask_current : forall q0 pre w x,
+  robs false (rinit q0) (pre ++ [RAsk w x]) = robs false (rinit q0) pre ++ [ask w (rcur (ainit q0) pre) x].
+Proof. exact Proofs.C02_req.req_ask_current. Qed.
+Print Assumptions req_ask_current.
+
+(* the same through a map object requested now and called at once *)
+Theorem req_kept_object_fresh : forall q0 pre w x,
+  robs false (rinit q0) (pre ++ [RGet w; RQuery (count_gets pre) x]) =
+  robs false (rinit q0) pre ++ [ask w (rcur (ainit q0) pre) x].
+Proof. exact Proofs.C02_req.req_kept_object_fresh. Qed.
+Print Assumptions req_kept_object_fresh.
+
+(* f (current state) IS the map of the theorems above (tmap / tinv of the part and beat mode the state has,
+   quarter_duration_map as built) *)
+Theorem req_ask_is_the_map : forall st x,
+  ask WQuarter st x = tmap Quarter (apart_of st) x /\
+  ask WBeat st x = tmap (amode_of st) (apart_of st) x /\
+  ask WInvQuarter st x = tinv Quarter (apart_of st) x /\
+  ask WInvBeat st x = tinv (amode_of st) (apart_of st) x /\
+  ask WQd st x = Some (inject_Z (qd_map_impl (p_qs (apart_of st)) x)).
+Proof. exact Proofs.C02_req.req_ask_is_the_map. Qed.
+Print Assumptions req_ask_is_the_map.
+
+(* not vacuous: a history with an in-place rewrite of the signature (6/8 -> 3/4), a division change, in-place musical
+   beats, a note removed, a kept object called after an edit -- the machine reproduces the listed values (beat_map(8) =
+   16, then 8, the kept object still 16; quarter_map(8) = 4; ...) ... *)
+Theorem example_requests : check_rcase (1, ex_req) = true.
+Proof. exact Proofs.C02_req.ex_req_ok. Qed.
+Print Assumptions example_requests.
+
+(* ... and the statement fails for the variant that caches the points of a map on the part at its first request *)
+Theorem req_memo_refuted : exists q0 ops, robs true (rinit q0) ops <> rspec (ainit q0) [] ops.
+Proof. exact Proofs.C02_req.req_memo_refuted. Qed.
+Print Assumptions req_memo_refuted.
